@@ -3,8 +3,10 @@
 // Driver for C07: the authenticator's redirect gates.
 //
 //	(a) net/url.Parse itself on grammar-generated URI strings (ties coq/theories/Url.v),
-//	(b) the unexported validRedirectURI / validSignature through the shim, with the root-domain
-//	    list as normalised by the real auth.NewAuthenticator,
+//	(b) validRedirectURI on arbitrary strings through GET /callback (hand-made state + CSRF cookie;
+//	    302 iff accepted), with the root-domain list as normalised by the real auth.NewAuthenticator;
+//	    validSignature through POST /sign_out and GET /sign_in over the sig/ts matrix - no shims,
+//	    only exported API and real requests, so a refactor of the internals cannot break the build,
 //	(c) real /start, /sign_in, /sign_out, /callback requests through the ServeMux of
 //	    auth.NewAuthenticator (real cookie store, real auth-code cipher, scripted provider).
 //
@@ -67,12 +69,20 @@ type world struct {
 }
 
 var worlds = map[string]*world{}
+var bootFailed = map[string]bool{}
+var bootCases []c.Case
 var statsdClient *statsd.Client
 
+// getWorld builds (once per configuration) a real Authenticator the way NewAuthenticatorMux does.
+// A configuration the service refuses to start with is an OBSERVATION (case CBoot), not a harness
+// error: nil is returned and the caller skips the request.
 func getWorld(domains []string, scheme string) *world {
 	key := scheme + "\x00" + strings.Join(domains, "\x00")
 	if w, ok := worlds[key]; ok {
 		return w
+	}
+	if bootFailed[key] {
+		return nil
 	}
 	sessCfg := auth.SessionConfig{
 		SessionLifetimeTTL: 720 * time.Hour,
@@ -100,7 +110,15 @@ func getWorld(domains []string, scheme string) *world {
 		auth.SetStatsdClient(statsdClient),
 		auth.SetRedirectURL(srvCfg, slug),
 	)
-	c.Must(err)
+	ok := err == nil && a != nil
+	bootCases = append(bootCases, c.Case{
+		Coq:  fmt.Sprintf("CBoot %s %s", c.Strs(domains), c.Bool(ok)),
+		JSON: map[string]interface{}{"kind": "boot", "domains": domains, "scheme": scheme, "ok": ok, "err": fmt.Sprint(err)},
+	})
+	if !ok {
+		bootFailed[key] = true
+		return nil
+	}
 	store, err := sessions.NewCookieStore(cookieName+"_"+slug, sessions.CreateMiscreantCookieCipher(cookieSecret))
 	c.Must(err)
 	w := &world{a: a, tp: tp, store: store, domains: domains, scheme: scheme}
@@ -133,6 +151,7 @@ var domainLists = [][]string{
 	{"example.com"}, {".example.com"}, {"example.com", "corp.test"}, {"sub.example.com"},
 	{"proxy.local", "root.local", "example.com"}, {"Example.com"}, {"com"}, {"example.com."},
 	{"xn--xample-9ua.com"}, {"éxample.com"}, {"a-b.example.com", ".example.org"},
+	{"corp.example.com"}, {"corp.example.com", "dev.corp.example.com"},
 }
 
 // degenerate configurations (ProxyConfig.Validate accepts them); used sparingly
@@ -167,12 +186,42 @@ func pctAll(s string) string {
 	return b.String()
 }
 
+// dotLookalike returns a host that differs from the root domain d (or from a subdomain of it) only
+// where d has a dot: the dot becomes another character ("corp-example.com" for "corp.example.com")
+// or disappears. Such hosts are ordinary registrable names outside the root domain.
+func dotLookalike(r *c.Rng, d string) string {
+	var dots []int
+	for i := 0; i < len(d); i++ {
+		if d[i] == '.' {
+			dots = append(dots, i)
+		}
+	}
+	if len(dots) == 0 {
+		return d + "x"
+	}
+	repl := r.Pick([]string{"-", "x", "0", "_", "", "..", "%2e", "\u3002", ":"})
+	b := []byte(d)
+	var out string
+	if r.Chance(0.3) { // every dot
+		out = strings.Replace(d, ".", repl, -1)
+	} else {
+		i := dots[r.Intn(len(dots))]
+		out = string(b[:i]) + repl + string(b[i+1:])
+	}
+	if r.Chance(0.4) {
+		out = r.Pick([]string{"app.", "login.", "a.b."}) + out
+	}
+	return out
+}
+
 func genHost(r *c.Rng, doms []string) string {
 	d := "example.com"
 	if len(doms) > 0 {
 		d = strings.TrimLeft(r.Pick(doms), ".")
 	}
-	switch r.Intn(34) {
+	switch r.Intn(40) {
+	case 34, 35, 36, 37, 38, 39:
+		return dotLookalike(r, d)
 	case 0:
 		return d
 	case 1:
@@ -529,40 +578,57 @@ func parseCase(uri string) c.Case {
 	}
 }
 
-func redirCase(doms []string, uri string) c.Case {
+// redirCase observes validRedirectURI on an arbitrary string WITHOUT reaching into the package:
+// GET /callback with a hand-made state "nonce:<uri>", the matching CSRF cookie, a redeemable code
+// and an admitted user answers 302 exactly when the recovered URI passes validRedirectURI (403
+// otherwise) - no secret is involved. ok=false: the service could not be built for this list.
+func redirCase(doms []string, uri string) (c.Case, bool) {
 	w := getWorld(doms, "https")
-	obs := auth.VerifValidRedirectURI(uri, w.a.ProxyRootDomains)
-	return c.Case{
-		Coq:  fmt.Sprintf("CRedir %s %s %s %s", c.Strs(doms), c.Strs(w.a.ProxyRootDomains), c.Str(uri), c.Bool(obs)),
-		JSON: map[string]interface{}{"kind": "validRedirectURI", "domains": doms, "uri": uri, "obs": obs},
+	if w == nil {
+		return c.Case{}, false
 	}
+	w.tp.Session = &sessions.SessionState{Email: "user@allowed.test", AccessToken: "at", RefreshToken: "rt",
+		RefreshDeadline: time.Now().Add(time.Hour), LifetimeDeadline: time.Now().Add(100 * time.Hour), ValidDeadline: time.Now().Add(time.Hour)}
+	w.tp.RedeemError = nil
+	const nonce = "nonce-for-redir"
+	v := url.Values{}
+	v.Set("code", "idp-code")
+	v.Set("state", base64.URLEncoding.EncodeToString([]byte(nonce+":"+uri)))
+	req := httptest.NewRequest("GET", "https://"+authHost+"/callback?"+v.Encode(), nil)
+	req.AddCookie(&http.Cookie{Name: w.store.CSRFCookieName, Value: nonce})
+	rec := httptest.NewRecorder()
+	w.a.ServeMux.ServeHTTP(rec, req)
+	obs := rec.Code == http.StatusFound
+	return c.Case{
+		Coq: fmt.Sprintf("CRedir %s %s %s %s", c.Strs(doms), c.Strs(w.a.ProxyRootDomains), c.Str(uri), c.Bool(obs)),
+		JSON: map[string]interface{}{"kind": "validRedirectURI via /callback", "domains": doms, "uri": uri, "obs": obs, "status": rec.Code,
+			"location": rec.Header().Get("Location")},
+	}, true
 }
 
-func sigCase(uri, sigVal, sigCoq, ts, secret string) c.Case {
-	now := time.Now()
-	obs := auth.VerifValidSignature(uri, sigVal, ts, secret)
-	return c.Case{
-		Coq: fmt.Sprintf("CSig %s %s %s %s %s %s", c.Z(now.UnixNano()), c.Str(uri), sigCoq, c.Str(ts), c.Str(secret), c.Bool(obs)),
-		JSON: map[string]interface{}{"kind": "validSignature", "uri": uri, "sig": sigVal, "sig_sym": sigCoq, "ts": ts, "secret": secret,
-			"now": now.Unix(), "obs": obs},
+// sigRequest turns one point of the sig/ts matrix into a served request: POST /sign_out without a
+// session (302 exactly when the redirect and the signature gates pass) or GET /sign_in with a live
+// session (code redirect), for an in-domain URI.
+func sigRequest(r *c.Rng, doms []string, uri, sigVal, sigCoq, ts string) serveReq {
+	sr := serveReq{Method: "POST", Ep: "sign_out", FormOK: true, ClientID: clientID, State: "st", Session: "none", ProvValid: true,
+		RevokeOK: true, CbRedeemOK: true, CbUserOK: true, CbCode: "x", Scheme: "https", Domains: doms,
+		URI: uri, SigVal: sigVal, SigCoq: sigCoq, TS: ts, CType: "urlencoded"}
+	if r != nil && r.Chance(0.35) {
+		sr.Method, sr.Ep, sr.Session, sr.CType = "GET", "sign_in", "good", ""
 	}
+	return sr
 }
 
 func genSigCase(r *c.Rng) c.Case {
 	doms := pickDomains(r)
 	uri := goodURI(r, doms)
-	if r.Chance(0.15) {
+	if r.Chance(0.1) {
 		uri = genURI(r, doms)
 	}
 	now := time.Now().Unix()
 	ts := genTS(r, now)
 	si := genSig(r, uri, ts, canonTS(ts))
-	secret := clientSecret
-	if r.Chance(0.05) {
-		secret = ""
-		si.Coq = describe(si.Val, "", uri+canonTS(ts))
-	}
-	return sigCase(uri, si.Val, si.Coq, ts, secret)
+	return serve(sigRequest(r, doms, uri, si.Val, si.Coq, ts))
 }
 
 type kv struct{ K, V string }
@@ -599,6 +665,7 @@ type serveReq struct {
 	Place   map[string]int    // parameter -> placement pattern (see placePairs); default 0
 	CType   string            // "", "urlencoded", "multipart", "json"
 	SigDesc map[string]string // sig value -> symbolic description, for alternates
+	Timed   bool              // part of a timed sequence: the clock is read before and after (case CServeT)
 }
 
 // placement patterns: where the primary (P) and the alternate (A) value of a parameter go
@@ -749,6 +816,10 @@ func (sr *serveReq) sigDescOf(val, verifierMsg string) string {
 
 func serve(sr serveReq) c.Case {
 	w := getWorld(sr.Domains, sr.Scheme)
+	if w == nil { // the service refuses this configuration: that observation is the case
+		return c.Case{Coq: fmt.Sprintf("CBoot %s false", c.Strs(sr.Domains)),
+			JSON: map[string]interface{}{"kind": "boot", "domains": sr.Domains, "ok": false, "note": "request skipped: no service for this configuration"}}
+	}
 	w.tp.ValidToken = sr.ProvValid
 	w.tp.RevokeError = nil
 	if !sr.RevokeOK {
@@ -833,6 +904,7 @@ func serve(sr serveReq) c.Case {
 	now := time.Now()
 	rec := httptest.NewRecorder()
 	w.a.ServeMux.ServeHTTP(rec, req)
+	nowHi := time.Now()
 
 	var oLoc, oCarried *string
 	if l, ok := rec.Header()["Location"]; ok && len(l) > 0 {
@@ -931,10 +1003,13 @@ func serve(sr serveReq) c.Case {
 	cfg := fmt.Sprintf("{| c_domains := %s; c_secret := %s; c_client_id := %s; c_scheme := %s |}",
 		c.Strs(sr.Domains), c.Str(clientSecret), c.Str(clientID), c.Str(sr.Scheme))
 	coq := fmt.Sprintf("CServe %s %s %s %s %d %s %s", cfg, c.Z(now.UnixNano()), ep, wire, rec.Code, optStr(oLoc), optStr(oCarried))
+	if sr.Timed {
+		coq = fmt.Sprintf("CServeT %s %s %s %s %s %d %s %s", cfg, c.Z(now.UnixNano()), c.Z(nowHi.UnixNano()), ep, wire, rec.Code, optStr(oLoc), optStr(oCarried))
+	}
 	js := map[string]interface{}{"kind": "serve", "ep": sr.Ep, "method": sr.Method, "domains": sr.Domains, "ctype": sr.CType,
 		"query": query, "body": body, "session": sr.Session, "form_ok": formOK,
 		"provider_valid": sr.ProvValid, "revoke_ok": sr.RevokeOK,
-		"status": rec.Code, "location": oLoc, "carried": oCarried, "now": now.Unix(), "note": sr.description}
+		"status": rec.Code, "location": oLoc, "carried": oCarried, "now": now.Unix(), "now_ns": now.UnixNano(), "timed": sr.Timed, "note": sr.description}
 	return c.Case{Coq: coq, JSON: js}
 }
 
@@ -1260,11 +1335,25 @@ func corpus() []c.Case {
 		"https://u%zz@app.example.com/", "https://ü@app.example.com/", "1https://app.example.com/", "://app.example.com/",
 	}
 	for _, u := range uris {
-		cs = append(cs, parseCase(u), redirCase(ex, u))
+		cs = append(cs, parseCase(u))
+		if rc, ok := redirCase(ex, u); ok {
+			cs = append(cs, rc)
+		}
+	}
+	// a dot of the root domain replaced by another character: an unrelated registrable name
+	for _, ds := range [][]string{{"corp.example.com"}, {"example.com"}} {
+		for _, u := range []string{"https://corp-example.com/", "https://login.corp-example.com/x", "https://corpxexample.com/", "https://corp.example-com/",
+			"https://app.example-com/", "https://examplexcom/", "https://corp.example.com/", "https://app.corp.example.com/", "https://corp.examplecom/"} {
+			if rc, ok := redirCase(ds, u); ok {
+				cs = append(cs, rc)
+			}
+		}
 	}
 	for _, ds := range [][]string{{""}, {"."}, {"..example.com"}, {".example.com"}} {
 		for _, u := range []string{"https://evil.org./", "https://:80/", "https://example.com/", "https://.example.com/", "https://x..example.com/", "https://x.example.com/"} {
-			cs = append(cs, redirCase(ds, u))
+			if rc, ok := redirCase(ds, u); ok {
+				cs = append(cs, rc)
+			}
 		}
 	}
 	// signature corpus: concatenation ambiguity (information), boundary timestamps, wrap-around
@@ -1291,7 +1380,7 @@ func corpus() []c.Case {
 		{good, good + "9223372036854775807", "9223372036854775808"},
 	} {
 		v := sign(clientSecret, x.signedMsg)
-		cs = append(cs, sigCase(x.uri, v, describe(v, clientSecret, x.signedMsg), x.ts, clientSecret))
+		cs = append(cs, serve(sigRequest(nil, ex, x.uri, v, describe(v, clientSecret, x.signedMsg), x.ts)))
 	}
 	// served corpus: the intended flows and the classic attacks
 	mk := func(ep, method, uri, sess string, tsOff int64, key string) serveReq {
@@ -1351,6 +1440,92 @@ func corpus() []c.Case {
 	return cs
 }
 
+// ------------------------------------------------------------------ sequences on one instance
+// A signed link is presented while fresh and presented AGAIN, on the same Authenticator, after its
+// timestamp is older than five minutes (and variants: first use on another endpoint, a link never
+// seen before, a failed attempt first). Real time has to pass, so the margins are small (margin
+// seconds on either side of the boundary); the clock is read before and after each request
+// (case CServeT) so that a stall can make a case inconclusive but never a false alarm.
+type timedSeq struct {
+	second []serveReq
+	due    time.Time
+}
+
+func startSequences(tier string) ([]c.Case, *timedSeq) {
+	margin := int64(4)
+	if tier == "thorough" {
+		margin = 30
+	}
+	ex := []string{"example.com"}
+	now := time.Now()
+	ts := strconv.FormatInt(now.Unix()-(300-margin), 10)
+	mk := func(ep, method, uri, sess, ctype string) serveReq {
+		v := signB64(clientSecret, uri+ts)
+		return serveReq{Ep: ep, Method: method, FormOK: true, ClientID: clientID, URI: uri, SigVal: v, SigCoq: describe(v, clientSecret, uri+ts), TS: ts,
+			State: "st", Session: sess, ProvValid: true, RevokeOK: true, CbRedeemOK: true, CbUserOK: true, CbCode: "x", Domains: ex, Scheme: "https",
+			CType: ctype, Timed: true}
+	}
+	mkStart := func(nested string) serveReq {
+		nv := url.Values{}
+		nv.Set("redirect_uri", nested)
+		nv.Set("ts", ts)
+		v := signB64(clientSecret, nested+ts)
+		nv.Set("sig", v)
+		sr := mk("start", "GET", "", "none", "")
+		sr.Outer = "https://" + authHost + "/sign_in?" + nv.Encode()
+		sr.SigDesc = map[string]string{v: describe(v, clientSecret, nested+ts)}
+		sr.SigVal, sr.SigCoq = "", ""
+		return sr
+	}
+	base := "https://app.example.com/seq/"
+	first := []serveReq{
+		mk("sign_in", "GET", base+"a", "good", ""),
+		mk("sign_out", "POST", base+"b", "none", "urlencoded"),
+		mk("sign_out", "GET", base+"c", "none", ""),
+		mkStart(base + "d"),
+		mk("sign_in", "GET", base+"e", "none", ""), // verified while rendering the sign-in page
+		mk("sign_out", "GET", base+"f", "good", ""), // verified while rendering the sign-out page
+	}
+	second := []serveReq{
+		mk("sign_in", "GET", base+"a", "good", ""),
+		mk("sign_out", "POST", base+"b", "none", "urlencoded"),
+		mk("sign_out", "GET", base+"c", "none", ""),
+		mkStart(base + "d"),
+		mk("sign_in", "GET", base+"e", "good", ""),
+		mk("sign_out", "POST", base+"f", "good", "urlencoded"),
+		mk("sign_out", "POST", base+"a", "none", "urlencoded"), // first verified on /sign_in
+		mkStart(base + "b"),                                    // first verified on /sign_out
+		mk("sign_in", "GET", base+"never-seen", "good", ""),
+	}
+	var cs []c.Case
+	// a failed attempt first must not poison (or bless) the genuine link presented next
+	bad := mk("sign_out", "POST", base+"g", "none", "urlencoded")
+	bad.SigVal = signB64(otherSecret, base+"g"+ts)
+	bad.SigCoq = describe(bad.SigVal, otherSecret, base+"g"+ts)
+	cs = append(cs, serve(bad), serve(mk("sign_out", "POST", base+"g", "none", "urlencoded")))
+	for i := range first {
+		first[i].description = "sequence step 1: link presented while fresh"
+		cs = append(cs, serve(first[i]))
+	}
+	// each link again at once: still fresh, same answer
+	cs = append(cs, serve(first[0]), serve(first[1]))
+	for i := range second {
+		second[i].description = "sequence step 2: the same link, now older than five minutes, same instance"
+	}
+	return cs, &timedSeq{second: second, due: now.Add(time.Duration(2*margin) * time.Second)}
+}
+
+func (t *timedSeq) finish() []c.Case {
+	if d := time.Until(t.due); d > 0 {
+		time.Sleep(d)
+	}
+	var cs []c.Case
+	for _, sr := range t.second {
+		cs = append(cs, serve(sr))
+	}
+	return cs
+}
+
 func main() {
 	a := c.ParseArgs()
 	c.Quiet()
@@ -1358,7 +1533,9 @@ func main() {
 	statsdClient, err = statsd.New("127.0.0.1:8125")
 	c.Must(err)
 	r := c.NewRng(a.Seed)
-	cases := corpus()
+	// step 1 of the timed sequences first; everything else runs while their deadline passes
+	cases, seq := startSequences(a.Tier)
+	cases = append(cases, corpus()...)
 	nParse := a.N * 35 / 100
 	nRedir := a.N * 20 / 100
 	nSig := a.N * 12 / 100
@@ -1368,7 +1545,9 @@ func main() {
 	}
 	for i := 0; i < nRedir; i++ {
 		ds := pickDomains(r)
-		cases = append(cases, redirCase(ds, genURI(r, ds)))
+		if rc, ok := redirCase(ds, genURI(r, ds)); ok {
+			cases = append(cases, rc)
+		}
 	}
 	for i := 0; i < nSig; i++ {
 		cases = append(cases, genSigCase(r))
@@ -1376,6 +1555,8 @@ func main() {
 	for i := 0; i < nServe; i++ {
 		cases = append(cases, genServe(r))
 	}
+	cases = append(cases, seq.finish()...)
+	cases = append(cases, bootCases...)
 	c.Must(c.WriteShards(a.Out, "Corr_C07", cases, a.Shard))
 	fmt.Printf("cases=%d\n", len(cases))
 }
